@@ -1,5 +1,784 @@
-//! C19 harness — to be written (see /verif/mc/HARNESS_GUIDE.md).
-fn main() {
-    eprintln!("MACHINERY-ERROR: harness C19 not built yet");
-    std::process::exit(2);
+//! C19 — every model survives a serialise/deserialise round trip unchanged, and model equality is
+//! meaningful.
+//!
+//! E1 over a finite configuration catalogue: every serialisable public type (with its kernel /
+//! distance / search-structure / solver variants, f64 and f32) x a catalogue of lattice data sets of
+//! different shapes x value variants x {bincode, JSON}; the dense matrix type over every shape up to
+//! a bound, every sign pattern, both widths, bincode, JSON and the hand-written JSON map form with
+//! its fields in every order; and, for the inequality clause, every pair of "twin" data sets
+//! (different rows and different targets) per type. Estimators that draw random numbers are fitted
+//! with the draws owned (default answers, thorough: every single deviation) or with a fixed seed.
+
+mod cmp;
+mod data;
+mod subjects;
+
+use cmp::{debug_compare, differing_fields, mentions_non_finite, obs_compare, obs_digest, obs_materially_different, Obs};
+use data::{Data, Domain, Micro, Task};
+use mc_core::{self as mc, json, Harness, Job, Plan, Tier, Value};
+use mc_sc::{own_rng, release_rng, take_draws, RngMode};
+use smartcore::linalg::naive::dense_matrix::DenseMatrix;
+use smartcore::linalg::BaseMatrix;
+use subjects::{matrix_model, subjects, Model, Num, Subject};
+
+struct C19;
+
+thread_local! {
+    static S64: Vec<Subject> = subjects::<f64>();
+    static S32: Vec<Subject> = subjects::<f32>();
 }
+
+fn with_subject<R>(name: &str, f: impl FnOnce(&Subject, f64) -> R) -> R {
+    let go = |v: &Vec<Subject>, eps: f64| {
+        let s = v.iter().find(|s| s.name == name).unwrap_or_else(|| panic!("unknown subject {}", name));
+        f(s, eps)
+    };
+    if name.ends_with("<f32>") {
+        S32.with(|v| go(v, f32::EPSILON as f64))
+    } else {
+        S64.with(|v| go(v, f64::EPSILON))
+    }
+}
+
+#[derive(Clone, Copy, PartialEq, Eq, Debug)]
+enum Format {
+    Bincode,
+    Json,
+}
+
+impl Format {
+    fn name(self) -> &'static str {
+        match self {
+            Format::Bincode => "bincode",
+            Format::Json => "json",
+        }
+    }
+}
+
+enum FitOutcome {
+    Model(Box<dyn Model>),
+    Failed(String),
+    Panicked(String),
+}
+
+/// Fit under the panic guard; the random draws of the estimator (if any) are answered by the
+/// explorer (deviation-kind choices: alternative 0 is the default answer).
+fn fit_subject(s: &Subject, d: &Data) -> FitOutcome {
+    if s.random {
+        own_rng(RngMode::Deviations);
+    }
+    let r = mc::guard(|| (s.fit)(d));
+    if s.random {
+        let _ = take_draws();
+        release_rng();
+    }
+    match r {
+        Ok(Ok(m)) => FitOutcome::Model(m),
+        Ok(Err(e)) => FitOutcome::Failed(e),
+        Err(p) => FitOutcome::Panicked(p.brief()),
+    }
+}
+
+/// Re-fit with exactly the same answers to the random draws as the first fit of this execution:
+/// the draws of the first fit are replayed from a private chooser, so the explorer's choice trace
+/// is not extended (the schedule is the one already chosen).
+fn refit_subject(s: &Subject, d: &Data, draws: &[usize]) -> FitOutcome {
+    if s.random {
+        let answers: Vec<usize> = draws.to_vec();
+        let mut k = 0usize;
+        smartcore::verif_hooks::install(Box::new(move |_site, n| {
+            let a = answers.get(k).copied().unwrap_or(0);
+            k += 1;
+            a.min(n - 1)
+        }));
+    }
+    let r = mc::guard(|| (s.fit)(d));
+    if s.random {
+        release_rng();
+    }
+    match r {
+        Ok(Ok(m)) => FitOutcome::Model(m),
+        Ok(Err(e)) => FitOutcome::Failed(e),
+        Err(p) => FitOutcome::Panicked(p.brief()),
+    }
+}
+
+fn fit_with_draws(s: &Subject, d: &Data) -> (FitOutcome, Vec<usize>) {
+    if s.random {
+        own_rng(RngMode::Deviations);
+    }
+    let r = mc::guard(|| (s.fit)(d));
+    let draws: Vec<usize> = if s.random {
+        let dr = take_draws().into_iter().map(|x| x.2).collect();
+        release_rng();
+        dr
+    } else {
+        Vec::new()
+    };
+    let o = match r {
+        Ok(Ok(m)) => FitOutcome::Model(m),
+        Ok(Err(e)) => FitOutcome::Failed(e),
+        Err(p) => FitOutcome::Panicked(p.brief()),
+    };
+    (o, draws)
+}
+
+thread_local! {
+    static COUNTER_NAMES: std::cell::RefCell<std::collections::HashMap<String, &'static str>> = std::cell::RefCell::new(std::collections::HashMap::new());
+}
+
+/// `fitted:<subject>`: one non-vacuity counter per type configuration (names are interned once).
+fn fitted_counter(subject: &str) -> &'static str {
+    COUNTER_NAMES.with(|m| {
+        let mut m = m.borrow_mut();
+        if let Some(n) = m.get(subject) {
+            return *n;
+        }
+        let leaked: &'static str = Box::leak(format!("fitted:{}", subject).into_boxed_str());
+        m.insert(subject.to_string(), leaked);
+        leaked
+    })
+}
+
+fn trunc(s: &str, n: usize) -> String {
+    if s.chars().count() <= n {
+        s.to_string()
+    } else {
+        format!("{}…", s.chars().take(n).collect::<String>())
+    }
+}
+
+fn data_brief(d: &Data, task: Task) -> String {
+    format!("data {} ({}x{}) rows {:?} targets {:?}", d.name, d.n(), d.p(), d.x, d.target(task))
+}
+
+/// The round-trip clauses for one model and one format. `ctx` describes the case; `comp` is the
+/// component part of the site key; `eps` the machine epsilon of the model's numeric width.
+fn round_trip_checks(comp: &str, ctx: &str, m: &dyn Model, q: &[Vec<f64>], fmt: Format, eps: f64) {
+    let fname = fmt.name();
+    let dbg = m.debug();
+    let non_finite = mentions_non_finite(&dbg);
+    let class = if non_finite { "non-finite-parameter" } else { "finite-model" };
+    if non_finite {
+        mc::count("models_with_non_finite_parameters");
+    }
+    // --- serialise
+    enum Wire {
+        B(Vec<u8>),
+        J(String),
+    }
+    let wire = match fmt {
+        Format::Bincode => mc::guard(|| m.to_bincode()).map(|r| r.map(Wire::B)),
+        Format::Json => mc::guard(|| m.to_json()).map(|r| r.map(Wire::J)),
+    };
+    let wire = match wire {
+        Ok(Ok(w)) => w,
+        Ok(Err(e)) => {
+            mc::violation(format!("{}.{}.serialize:error:{}", comp, fname, class), format!("{}: serialisation fails: {}", ctx, e));
+            return;
+        }
+        Err(p) => {
+            mc::violation(format!("{}.{}.serialize:panic:{}", comp, fname, class), format!("{}: serialisation panics: {}", ctx, p.brief()));
+            return;
+        }
+    };
+    // --- deserialise
+    let back = match &wire {
+        Wire::B(b) => mc::guard(|| m.from_bincode(b)),
+        Wire::J(s) => mc::guard(|| m.from_json(s)),
+    };
+    let wire_text = match &wire {
+        Wire::B(b) => format!("{} bytes", b.len()),
+        Wire::J(s) => trunc(s, 300),
+    };
+    let r = match back {
+        Ok(Ok(r)) => r,
+        Ok(Err(e)) => {
+            mc::violation(format!("{}.{}.deserialize:error:{}", comp, fname, class), format!("{}: the serialised model ({}) cannot be deserialised: {}", ctx, wire_text, e));
+            return;
+        }
+        Err(p) => {
+            mc::violation(format!("{}.{}.deserialize:panic:{}", comp, fname, class), format!("{}: deserialising the serialised model ({}) panics: {}", ctx, wire_text, p.brief()));
+            return;
+        }
+    };
+    mc::count(match fmt {
+        Format::Bincode => "round_trips_bincode",
+        Format::Json => "round_trips_json",
+    });
+    // did decimal rounding change any bit? (JSON only; judged on the binary form of both objects)
+    let rounded = match fmt {
+        Format::Bincode => false,
+        Format::Json => {
+            let (a, b) = (m.to_bincode(), r.to_bincode());
+            let changed = a.is_err() || b.is_err() || a != b;
+            if changed {
+                mc::count("json_round_trips_with_decimal_rounding");
+            }
+            changed
+        }
+    };
+    let exact = !rounded;
+    // --- restored == original
+    match mc::guard(|| (r.eq_model(m), m.eq_model(r.as_ref()))) {
+        Ok((Some(a), Some(b))) => {
+            mc::count("equality_checked_restored");
+            if (!a || !b) && non_finite {
+                mc::count("equality_not_judged_non_finite_model");
+            } else if (!a || !b) && exact {
+                mc::violation(
+                    format!("{}.{}:restored-not-equal:{}", comp, fname, class),
+                    format!("{}: restored == original is {}, original == restored is {} (the restored object is bit-identical in its binary form: {})", ctx, a, b, exact),
+                );
+            } else if !a || !b {
+                mc::count("json_rounded_restored_compares_unequal");
+            }
+        }
+        Ok(_) => mc::count("types_without_partial_eq"),
+        Err(p) => mc::violation(format!("{}.{}:eq-panics", comp, fname), format!("{}: comparing restored and original panics: {}", ctx, p.brief())),
+    }
+    // --- complete state (Debug rendering): unchanged
+    let state_tol = if exact { None } else { Some(64.0 * eps) };
+    let dbg_r = r.debug();
+    if let Some(diff) = debug_compare(&dbg, &dbg_r, state_tol) {
+        let fields = differing_fields(&m.to_value(), &r.to_value(), 64.0 * eps, 2);
+        mc::violation(format!("{}.{}:state-changed:{}", comp, fname, fields), format!("{}: the restored object's state differs from the original's ({})", ctx, diff));
+    }
+    // --- a second serialisation of the restored object gives the same bytes / text
+    if exact {
+        let again = match &wire {
+            Wire::B(b) => mc::guard(|| r.to_bincode()).ok().and_then(|x| x.ok()).map(|x| x == *b),
+            Wire::J(s) => mc::guard(|| r.to_json()).ok().and_then(|x| x.ok()).map(|x| x == *s),
+        };
+        if again != Some(true) {
+            mc::violation(format!("{}.{}:reserialised-differs", comp, fname), format!("{}: serialising the restored object does not reproduce the serialised original", ctx));
+        }
+    }
+    // --- identical answers on the query lattice
+    let (oa, ob) = (m.observe(q), r.observe(q));
+    let tol = if exact { None } else { Some(4096.0 * eps) };
+    mc::count_n("query_rows_compared", q.len() as u64);
+    if let Some(diff) = obs_compare(&oa, &ob, tol) {
+        if exact {
+            mc::violation(format!("{}.{}:answers-differ", comp, fname), format!("{}: original and restored model answer differently on the query lattice ({}; bit-for-bit comparison of bit-identical-looking objects)", ctx, diff));
+        } else {
+            // decimal rounding moved a parameter by an ulp: answers at exact ties (nearest
+            // neighbour, argmax, threshold) may legitimately flip; the state comparison above has
+            // already shown the restored object to be the original up to that rounding
+            mc::count("json_rounded_answers_differ_at_ties");
+        }
+    }
+    mc::outcome(obs_digest(&oa));
+    mc::outcome(mc::hash::h_str(&dbg));
+    let nq = q.len();
+    mc::describe(|| {
+        json!({
+            "format": fname,
+            "serialised": wire_text,
+            "decimal_rounding_changed_bits": rounded,
+            "model_debug": trunc(&dbg, 600),
+            "queries": nq,
+            "observations": oa.iter().take(3).map(|o| json!({"what": o.label, "answer": match &o.res { Ok(v) => json!(v.iter().take(12).collect::<Vec<_>>()), Err(e) => json!(e) }})).collect::<Vec<_>>(),
+        })
+    });
+}
+
+/// self-equality and equality of a second fit
+fn equality_checks(s: &Subject, ctx: &str, d: &Data, m: &dyn Model, draws: &[usize]) {
+    let comp = s.component;
+    if mentions_non_finite(&m.debug()) {
+        // NaN != NaN is IEEE semantics, not a property of the model type: equality of models that
+        // hold a non-finite parameter is not judged
+        mc::count("equality_not_judged_non_finite_model");
+        return;
+    }
+    let class = "finite-model";
+    match mc::guard(|| m.eq_model(m)) {
+        Ok(Some(true)) => mc::count("equality_checked_self"),
+        Ok(Some(false)) => mc::violation(format!("{}.eq:not-reflexive:{}", comp, class), format!("{}: model == model is false", ctx)),
+        Ok(None) => {}
+        Err(p) => mc::violation(format!("{}.eq:panics", comp), format!("{}: model == model panics: {}", ctx, p.brief())),
+    }
+    match refit_subject(s, d, draws) {
+        FitOutcome::Model(m2) => match mc::guard(|| (m.eq_model(m2.as_ref()), m2.eq_model(m))) {
+            Ok((Some(a), Some(b))) => {
+                mc::count("equality_checked_refit");
+                if !a || !b {
+                    let fields = differing_fields(&m.to_value(), &m2.to_value(), 0.0, 2);
+                    mc::violation(
+                        format!("{}.eq:refit-not-equal:{}:{}", comp, class, fields),
+                        format!("{}: a second fit on the same data (same answers to all random draws) does not compare equal (first == second: {}, second == first: {}; serialised fields that differ: {})", ctx, a, b, fields),
+                    );
+                }
+            }
+            Ok(_) => {}
+            Err(p) => mc::violation(format!("{}.eq:panics", comp), format!("{}: first fit == second fit panics: {}", ctx, p.brief())),
+        },
+        FitOutcome::Failed(e) => mc::violation(format!("{}.fit:second-fit-fails", comp), format!("{}: the second fit on the same data fails: {}", ctx, e)),
+        FitOutcome::Panicked(e) => mc::violation(format!("{}.fit:second-fit-fails", comp), format!("{}: the second fit on the same data panics: {}", ctx, e)),
+    }
+}
+
+fn rt_case(s: &Subject, eps: f64, d: &Data, fmt: Format) {
+    let ctx = format!("{} fitted on {}, {}", s.name, data_brief(d, s.task), fmt.name());
+    let (fit, draws) = fit_with_draws(s, d);
+    let m = match fit {
+        FitOutcome::Model(m) => m,
+        FitOutcome::Failed(e) => {
+            mc::count("fit_refused");
+            mc::describe(|| json!({"subject": s.name, "data": d.name, "fit": format!("refused: {}", e)}));
+            return;
+        }
+        FitOutcome::Panicked(e) => {
+            // a panicking fit is the business of the property that owns the estimator
+            mc::count("fit_panicked");
+            mc::describe(|| json!({"subject": s.name, "data": d.name, "fit": format!("panicked: {}", e)}));
+            return;
+        }
+    };
+    mc::count("models_fitted");
+    mc::count(fitted_counter(&s.name));
+    mc::nontrivial();
+    mc::describe(|| json!({"subject": s.name, "data": d.name, "rows": d.x, "targets": d.target(s.task), "random_draw_answers": draws}));
+    if fmt == Format::Bincode {
+        equality_checks(s, &ctx, d, m.as_ref(), &draws);
+    }
+    let q = data::queries(d, s.domain);
+    round_trip_checks(s.component, &ctx, m.as_ref(), &q, fmt, eps);
+}
+
+/// The inequality clause: a model does not equal a model fitted on different rows and targets.
+fn neq_case(s: &Subject, eps: f64, a: &Data, b: &Data) {
+    let rows_differ = a.x != b.x;
+    let targets_differ = s.task == Task::Unsupervised || a.target(s.task) != b.target(s.task);
+    if !rows_differ || !targets_differ {
+        mc::count("neq_pairs_skipped_same_rows_or_targets");
+        return;
+    }
+    let (ma, mb) = match (fit_subject(s, a), fit_subject(s, b)) {
+        (FitOutcome::Model(x), FitOutcome::Model(y)) => (x, y),
+        _ => {
+            mc::count("neq_pairs_fit_failed");
+            return;
+        }
+    };
+    let (e1, e2) = match mc::guard(|| (ma.eq_model(mb.as_ref()), mb.eq_model(ma.as_ref()))) {
+        Ok((Some(x), Some(y))) => (x, y),
+        Ok(_) => {
+            mc::count("types_without_partial_eq");
+            return;
+        }
+        Err(p) => {
+            mc::violation(format!("{}.eq:panics", s.component), format!("{} fitted on {} and on {}: == panics: {}", s.name, data_brief(a, s.task), data_brief(b, s.task), p.brief()));
+            return;
+        }
+    };
+    mc::nontrivial();
+    // the same queries for both models: the union of the two query lattices
+    let mut q = data::queries(a, s.domain);
+    for r in data::queries(b, s.domain) {
+        if !q.contains(&r) {
+            q.push(r);
+        }
+    }
+    let (oa, ob) = (ma.observe(&q), mb.observe(&q));
+    mc::outcome(mc::hash::mix(obs_digest(&oa), obs_digest(&ob)));
+    mc::outcome((e1 as u64) * 2 + e2 as u64);
+    mc::describe(|| json!({"subject": s.name, "first": {"data": a.name, "rows": a.x, "targets": a.target(s.task)}, "second": {"data": b.name, "rows": b.x, "targets": b.target(s.task)}, "first==second": e1, "second==first": e2}));
+    if !e1 && !e2 {
+        mc::count("neq_pairs_unequal");
+        return;
+    }
+    // the stored state must differ far above the tolerance of the == implementations (an absolute
+    // epsilon), otherwise differing answers are ties broken by rounding noise
+    let fields = differing_fields(&ma.to_value(), &mb.to_value(), 1e-6, 1);
+    if fields == "none" {
+        mc::count("neq_pairs_equal_and_state_within_noise");
+        return;
+    }
+    match obs_materially_different(&oa, &ob, (16384.0 * eps).max(1e-6)) {
+        Some((true, what)) => {
+            mc::violation(
+                format!("{}.eq:equal-despite-different-{}", s.component, fields),
+                format!(
+                    "{}: the model fitted on {} compares equal (a==b: {}, b==a: {}) to the model fitted on {} although they answer differently ({}); serialised fields that differ: {}",
+                    s.name,
+                    data_brief(a, s.task),
+                    e1,
+                    e2,
+                    data_brief(b, s.task),
+                    what,
+                    fields
+                ),
+            );
+        }
+        Some((false, _)) => mc::count("neq_pairs_equal_and_indistinguishable"),
+        None => mc::count("neq_pairs_too_close_to_call"),
+    }
+}
+
+// ------------------------------------------------------------------------------------------------
+// the dense matrix type: every shape, sign pattern, serial form
+
+const MATRIX_FORMS: usize = 9; // bincode, json, json seq form, 6 key orders of the json map form
+
+fn index_coded(r: usize, c: usize, pattern: usize) -> Vec<Vec<f64>> {
+    (0..r)
+        .map(|i| {
+            (0..c)
+                .map(|j| {
+                    let v = (1 + i * 16 + j) as f64;
+                    match pattern {
+                        0 => v,
+                        1 => -v,
+                        2 => {
+                            if (i + j) % 2 == 0 {
+                                v
+                            } else {
+                                -v
+                            }
+                        }
+                        3 => {
+                            if i % 2 == 0 {
+                                v
+                            } else {
+                                -v
+                            }
+                        }
+                        // non-dyadic values: decimal rounding through JSON
+                        _ => v * 0.1 + 1.0 / 3.0,
+                    }
+                })
+                .collect()
+        })
+        .collect()
+}
+
+fn build_matrix<T: Num>(rows: &[Vec<f64>], r: usize, c: usize, via_transpose: bool) -> DenseMatrix<T> {
+    let mut m = DenseMatrix::<T>::zeros(r, c);
+    if via_transpose {
+        // built as the transpose of its transpose-shaped twin (another construction path)
+        let mut tw = DenseMatrix::<T>::zeros(c, r);
+        for i in 0..r {
+            for j in 0..c {
+                tw.set(j, i, T::from(rows[i][j]).unwrap());
+            }
+        }
+        m = tw.transpose();
+    } else {
+        for i in 0..r {
+            for j in 0..c {
+                m.set(i, j, T::from(rows[i][j]).unwrap());
+            }
+        }
+    }
+    m
+}
+
+fn matrix_case<T: Num>(r: usize, c: usize, pattern: usize, via_transpose: bool, form: usize) {
+    let rows = index_coded(r, c, pattern);
+    let ctx = format!("DenseMatrix<{}> {}x{} {:?}{}", T::NAME, r, c, rows, if via_transpose { " (built by transpose())" } else { "" });
+    let built = mc::guard(|| build_matrix::<T>(&rows, r, c, via_transpose));
+    let m = match built {
+        Ok(m) => m,
+        Err(p) => {
+            // constructing the matrix is not this property's business
+            mc::count("matrix_construction_panicked");
+            mc::describe(|| json!({"matrix": ctx, "construction": p.brief()}));
+            return;
+        }
+    };
+    mc::nontrivial();
+    mc::count("matrices");
+    if r != c {
+        mc::count("non_square_matrices");
+    }
+    let model = matrix_model::<T>(m);
+    let eps = T::eps64();
+    match mc::guard(|| model.eq_model(model.as_ref())) {
+        Ok(Some(true)) => {}
+        _ => mc::violation("dense_matrix.eq:not-reflexive", format!("{}: m == m is not true", ctx)),
+    }
+    match form {
+        0 => round_trip_checks("dense_matrix", &ctx, model.as_ref(), &[], Format::Bincode, eps),
+        1 => round_trip_checks("dense_matrix", &ctx, model.as_ref(), &[], Format::Json, eps),
+        _ => {
+            // hand-written JSON: the library's own field values, rearranged
+            let v = model.to_value();
+            let (nr, nc, vals) = (v["nrows"].clone(), v["ncols"].clone(), v["values"].clone());
+            if !nr.is_u64() || !nc.is_u64() || !vals.is_array() {
+                mc::violation("dense_matrix.json:fields", format!("{}: the JSON form {} does not have the fields nrows, ncols, values", ctx, trunc(&v.to_string(), 200)));
+                return;
+            }
+            let fields = [("nrows", nr.to_string()), ("ncols", nc.to_string()), ("values", vals.to_string())];
+            const ORDERS: [[usize; 3]; 6] = [[0, 1, 2], [0, 2, 1], [1, 0, 2], [1, 2, 0], [2, 0, 1], [2, 1, 0]];
+            let (text, form_name) = if form == 2 {
+                (format!("[{},{},{}]", fields[0].1, fields[1].1, fields[2].1), "json sequence form".to_string())
+            } else {
+                let o = ORDERS[form - 3];
+                (format!("{{\"{}\":{},\"{}\":{},\"{}\":{}}}", fields[o[0]].0, fields[o[0]].1, fields[o[1]].0, fields[o[1]].1, fields[o[2]].0, fields[o[2]].1), format!("json map form, fields in order {}, {}, {}", fields[o[0]].0, fields[o[1]].0, fields[o[2]].0))
+            };
+            let site_form = if form == 2 { "json-seq" } else { "json-map" };
+            mc::count("matrix_handwritten_json_forms");
+            let back = mc::guard(|| model.from_json(&text));
+            let rm = match back {
+                Ok(Ok(x)) => x,
+                Ok(Err(e)) => {
+                    mc::violation(format!("dense_matrix.{}.deserialize:error", site_form), format!("{}: {} {} is rejected: {}", ctx, form_name, trunc(&text, 200), e));
+                    return;
+                }
+                Err(p) => {
+                    mc::violation(format!("dense_matrix.{}.deserialize:panic", site_form), format!("{}: {} {} panics: {}", ctx, form_name, trunc(&text, 200), p.brief()));
+                    return;
+                }
+            };
+            let exact = matches!((model.to_bincode(), rm.to_bincode()), (Ok(a), Ok(b)) if a == b);
+            if !exact {
+                mc::count("json_round_trips_with_decimal_rounding");
+            }
+            if exact && mc::guard(|| rm.eq_model(model.as_ref())).ok().flatten() != Some(true) {
+                mc::violation(format!("dense_matrix.{}:restored-not-equal", site_form), format!("{}: the matrix read from the {} does not equal the original", ctx, form_name));
+            }
+            if let Some(diff) = obs_compare(&model.observe(&[]), &rm.observe(&[]), if exact { None } else { Some(4096.0 * eps) }) {
+                mc::violation(format!("dense_matrix.{}:entries-differ", site_form), format!("{}: the matrix read from the {} differs: {}", ctx, form_name, diff));
+            }
+            mc::outcome(obs_digest(&rm.observe(&[])));
+            mc::describe(|| json!({"matrix": ctx, "form": form_name, "text": trunc(&text, 300)}));
+        }
+    }
+}
+
+// ------------------------------------------------------------------------------------------------
+
+/// Types fitted by an iterative optimiser without an iteration bound that holds at extreme scales
+/// (their termination is the business of C08-C10): they get the three moderate value variants only.
+fn iterative(subject_name: &str) -> bool {
+    ["svc[", "svr[", "lasso[", "elastic_net[", "logistic_regression["].iter().any(|p| subject_name.starts_with(p))
+}
+
+fn applicable(s: &Subject, d: &Data) -> bool {
+    d.p() >= s.min_p
+}
+
+fn subject_names() -> Vec<(String, Domain, Task, bool, usize)> {
+    let mut v: Vec<(String, Domain, Task, bool, usize)> = Vec::new();
+    S64.with(|s| v.extend(s.iter().map(|x| (x.name.clone(), x.domain, x.task, x.random, x.min_p))));
+    S32.with(|s| v.extend(s.iter().map(|x| (x.name.clone(), x.domain, x.task, x.random, x.min_p))));
+    v
+}
+
+fn micro_families(thorough: bool) -> Vec<Micro> {
+    if thorough {
+        vec![
+            Micro { n: 3, p: 1, sigma: 3 },
+            Micro { n: 4, p: 1, sigma: 3 },
+            Micro { n: 3, p: 2, sigma: 2 },
+            Micro { n: 3, p: 2, sigma: 3 },
+            Micro { n: 4, p: 2, sigma: 2 },
+            Micro { n: 5, p: 1, sigma: 3 },
+            Micro { n: 3, p: 3, sigma: 2 },
+        ]
+    } else {
+        vec![Micro { n: 3, p: 1, sigma: 3 }, Micro { n: 3, p: 2, sigma: 2 }]
+    }
+}
+
+impl Harness for C19 {
+    fn id(&self) -> &'static str {
+        "C19"
+    }
+
+    fn plan(&self, tier: Tier, seed: u64) -> Plan {
+        let th = tier.is_thorough();
+        let mut jobs = Vec::new();
+        // (1) the dense matrix type
+        let rmax = if th { 8 } else { 5 };
+        for w in ["f64", "f32"] {
+            for r in 0..=rmax {
+                jobs.push(Job::new(format!("matrix-{}-r{}", w, r), json!({"kind": "matrix", "width": w, "r": r, "cmax": rmax})));
+            }
+        }
+        let names = subject_names();
+        let n_cat = data::catalogue().len();
+        // (2) round trips over the catalogue
+        for (name, domain, _task, random, _) in &names {
+            let mut j = Job::new(format!("rt-{}", name), json!({"kind": "rt", "subject": name, "datasets": n_cat, "variants": data::n_variants(*domain, th, iterative(name)), "seed": seed}));
+            if *random {
+                j = j.with_dev_bound(if th { 1 } else { 0 });
+            }
+            jobs.push(j);
+        }
+        // (3) the inequality clause over pairs of twins
+        for (name, domain, _task, random, _) in &names {
+            let nv = if th { data::n_variants(*domain, false, true) } else { 1 };
+            for di in 0..n_cat {
+                let mut j = Job::new(format!("neq-{}-d{}", name, di), json!({"kind": "neq", "subject": name, "dataset": di, "variants": nv, "seed": seed}));
+                if *random {
+                    j = j.with_dev_bound(0);
+                }
+                jobs.push(j);
+            }
+        }
+        // (4) round trips over exhaustively enumerated micro data sets
+        for (fi, fam) in micro_families(th).iter().enumerate() {
+            for (name, _domain, task, random, min_p) in &names {
+                // the interior-point solver of Lasso / ElasticNet does not terminate on some degenerate
+                // micro data sets (f32, zero-variance column): not this property's business
+                if fam.p < *min_p || name.starts_with("lasso[") || name.starts_with("elastic_net[") {
+                    continue;
+                }
+                // one job per block of feature matrices
+                let nx = fam.n_x();
+                let block = 27.min(nx);
+                let ny = if *task == Task::Unsupervised { 1 } else { fam.n_y() };
+                for b in 0..((nx + block - 1) / block) {
+                    let mut j = Job::new(format!("micro{}-{}-b{}", fi, name, b), json!({"kind": "micro", "subject": name, "mn": fam.n, "mp": fam.p, "ms": fam.sigma, "x0": b * block, "xn": block.min(nx - b * block), "ny": ny}));
+                    if *random {
+                        j = j.with_dev_bound(0);
+                    }
+                    jobs.push(j);
+                }
+            }
+        }
+        Plan {
+            jobs,
+            budget_s: if th { 2400 } else { 40 },
+            case_deadline_ms: 20_000,
+            floors: {
+                let mut f: Vec<(&'static str, u64)> = vec![
+                    ("matrices", 6_000),
+                    ("non_square_matrices", 5_000),
+                    ("matrix_handwritten_json_forms", 5_000),
+                    ("models_fitted", 100_000),
+                    ("round_trips_bincode", 50_000),
+                    ("round_trips_json", 50_000),
+                    ("equality_checked_restored", 100_000),
+                    ("equality_checked_self", 50_000),
+                    ("equality_checked_refit", 50_000),
+                    ("neq_pairs_unequal", 8_000),
+                    ("query_rows_compared", 4_000_000),
+                    ("json_round_trips_with_decimal_rounding", 1_000),
+                ];
+                // every type configuration must have produced models (catalogue round trips alone
+                // are 36 executions per configuration)
+                for (name, ..) in &names {
+                    f.push((fitted_counter(name), 12));
+                }
+                f
+            },
+            bounds: json!({
+                "dense_matrix": format!("every shape 0..={r} x 0..={r}, 5 value patterns (4 index-coded sign patterns + non-dyadic), built directly and by transpose(), f64 and f32, 9 serial forms (bincode, JSON, JSON sequence form, JSON map form with its 3 fields in all 6 orders)", r = rmax),
+                "subjects": format!("{} type configurations (each at f64 and f32 counted separately)", names.len()),
+                "round_trips": format!("every subject x {} catalogue data sets (6x1, 9x2, 8x2, 10x3, 12x4, 8x5) x value variants ({} for real-valued, 3 for count data; VERIF_SEED selects one of 8 lattice offsets) x {{bincode, JSON}}; queries: the half-step / integer lattice of the data set's dimension plus the training rows", n_cat, if th { "3, and 5 incl. the scales 2^-30 and 2^30 for types that are not fitted by an iterative optimiser" } else { "3" }),
+                "inequality": format!("every subject with == x every catalogue data set x {} variant(s) x every unordered pair of its {} twins (identity, shifted rows + renamed targets, appended row + changed targets, reversed order, mirrored column + swapped classes)", if th { 3 } else { 1 }, data::N_TWINS),
+                "micro": micro_families(th).iter().map(|f| format!("every {}x{} matrix over {{0..{}}} ({}) x every binary labelling using both classes ({})", f.n, f.p, f.sigma - 1, f.n_x(), f.n_y())).collect::<Vec<_>>(),
+                "random_estimators": format!("SVC visiting order and k-means++ seeding answered through the verif-hooks seam: default answers{}; forests: the library's seeded generator with 3 fixed seeds", if th { " and every single deviation from them (catalogue round trips)" } else { "" }),
+            }),
+        }
+    }
+
+    fn run(&self, job: &Job) {
+        match job.kind() {
+            "matrix" => {
+                let r = job.u("r");
+                let c = mc::choose(job.u("cmax") + 1);
+                let pattern = mc::choose(5);
+                let via_t = mc::choose(2) == 1;
+                let form = mc::choose(MATRIX_FORMS);
+                if job.s("width") == "f32" {
+                    matrix_case::<f32>(r, c, pattern, via_t, form)
+                } else {
+                    matrix_case::<f64>(r, c, pattern, via_t, form)
+                }
+            }
+            "rt" => {
+                let di = mc::choose(job.u("datasets"));
+                let vi = mc::choose(job.u("variants"));
+                let fmt = if mc::choose(2) == 0 { Format::Bincode } else { Format::Json };
+                let seed = job.u("seed") as u64;
+                with_subject(job.s("subject"), |s, eps| {
+                    let base = &data::catalogue()[di];
+                    if !applicable(s, base) {
+                        mc::count("not_applicable");
+                        return;
+                    }
+                    let d = data::variant(base, s.domain, vi, seed);
+                    rt_case(s, eps, &d, fmt);
+                })
+            }
+            "neq" => {
+                let vi = mc::choose(job.u("variants"));
+                let np = data::N_TWINS * (data::N_TWINS - 1) / 2;
+                let pi = mc::choose(np);
+                let seed = job.u("seed") as u64;
+                let di = job.u("dataset");
+                with_subject(job.s("subject"), |s, eps| {
+                    let base = &data::catalogue()[di];
+                    if !applicable(s, base) {
+                        mc::count("not_applicable");
+                        return;
+                    }
+                    let d = data::variant(base, s.domain, vi, seed);
+                    // unrank the pair
+                    let (mut a, mut b, mut k) = (0usize, 1usize, 0usize);
+                    'f: for i in 0..data::N_TWINS {
+                        for j in (i + 1)..data::N_TWINS {
+                            if k == pi {
+                                a = i;
+                                b = j;
+                                break 'f;
+                            }
+                            k += 1;
+                        }
+                    }
+                    neq_case(s, eps, &data::twin(&d, s.domain, a), &data::twin(&d, s.domain, b));
+                })
+            }
+            "micro" => {
+                let fam = Micro { n: job.u("mn"), p: job.u("mp"), sigma: job.u("ms") };
+                let xi = job.u("x0") + mc::choose(job.u("xn"));
+                let yi = mc::choose(job.u("ny"));
+                let fmt = if mc::choose(2) == 0 { Format::Bincode } else { Format::Json };
+                with_subject(job.s("subject"), |s, eps| {
+                    let d = fam.build(xi, yi);
+                    rt_case(s, eps, &d, fmt);
+                })
+            }
+            other => panic!("unknown job kind {}", other),
+        }
+    }
+
+    fn cleanup(&self) {
+        release_rng();
+    }
+
+    fn rule(&self) -> String {
+        "one execution = one (type configuration, numeric width, data set, value variant, serial format) or one (type configuration, pair of twin data sets) or one (matrix shape, pattern, construction path, serial form); non-trivial = the library object could be built and was serialised / compared; distinct = digest of the model's state rendering and of its answers on the query lattice".into()
+    }
+
+    fn assumptions(&self) -> Vec<String> {
+        vec![
+            "the complete state of an object is what its derived Debug rendering shows; 'unchanged' is judged on it (bit for bit through bincode, numbers within 64 eps through JSON when decimal rounding changed a bit)".into(),
+            "through JSON, restored == original is demanded only when the restored object is bit-identical in binary form (serde_json without float_roundtrip may be one ulp off; the statement allows decimal rounding)".into(),
+            "two models are 'observably different' when some answer on the union of their query lattices differs by more than 1e-6 of the output scale; only then is a == b reported".into(),
+            "estimators whose fit panics or is refused on a data set are not subjects of this property on that data set (counted, not judged)".into(),
+            "SVC / k-means are fitted with the random draws owned through the verif-hooks seam; forests use their seeded generator with fixed seeds".into(),
+            "the RNG call sites of /repo/src equal /verif/rng_sites.allow (checked at start-up)".into(),
+        ]
+    }
+
+    fn engine(&self) -> &'static str {
+        "E1 stateless choice-tree exploration of the real code over a finite configuration catalogue (type x data set x variant x format), differential oracle original vs restored"
+    }
+}
+
+fn main() {
+    if let Err(e) = mc_sc::check_rng_sites() {
+        eprintln!("MACHINERY-ERROR: {}", e);
+        std::process::exit(2);
+    }
+    mc::main(C19)
+}
+
+#[allow(dead_code)]
+fn _unused(_: Value, _: Obs) {}
